@@ -243,6 +243,42 @@ func c18Siblings(kind string, firstIsO bool, val string) string {
 	return ""
 }
 
+// c18AfterRefused: bind parameters read after requests that the same routes refused half way (a match-all
+// that ran over its capture limit, a route that failed at its last segment): what a request reads is what its
+// own path holds. One instance, requests in sequence; "" = must be not found.
+func c18AfterRefused() (bad string, at int) {
+	f := flamego.NewWithLogger(io.Discard)
+	var got string
+	f.Get("/r/{name}/t/{path: **, capture: 2}/w/{file}", func(c flamego.Context) {
+		got = c.Param("name") + "|" + c.Param("path") + "|" + c.Param("file")
+	})
+	f.Get("/s/{path: **, capture: 1}", func(c flamego.Context) { got = "s|" + c.Param("path") })
+	f.Get("/u/{p: **}/v/{q}", func(c flamego.Context) { got = "u|" + c.Param("p") + "|" + c.Param("q") })
+	seq := [][2]string{
+		{"/r/n1/t/a/b/c/w/f1", ""}, {"/r/n2/t/d/w/f2", "n2|d|f2"}, {"/r/n3/t/a/b/c/d/w/f3", ""}, {"/r/n4/t/e/g/w/f4", "n4|e/g|f4"},
+		{"/r/n5/t/e/g/x/f5", ""}, {"/r/n6/t/h/w/f6", "n6|h|f6"}, {"/r/n7/t/i/j/k", ""}, {"/r/n8/t/l/w/f8", "n8|l|f8"},
+		{"/s/a/b", ""}, {"/s/c", "s|c"}, {"/s/d/e/f", ""}, {"/s/g", "s|g"},
+		{"/u/a/b/x", ""}, {"/u/c/v/d", "u|c|d"}, {"/u/a/b/v", ""}, {"/u/e/f/v/g", "u|e/f|g"},
+		{"/r/n9/t/a/b/c/w/f9", ""}, {"/s/h", "s|h"}, {"/r/n0/t/m/w/f0", "n0|m|f0"},
+	}
+	for i, st := range seq {
+		got = ""
+		spy := &c01Spy{hdr: http.Header{}}
+		var pan interface{}
+		func() {
+			defer func() { pan = recover() }()
+			f.ServeHTTP(spy, newReq("GET", st[0]))
+		}()
+		if pan != nil {
+			return fmt.Sprintf("request %d (%s) panicked: %v", i+1, st[0], pan), i
+		}
+		if got != st[1] {
+			return fmt.Sprintf("request %d of the sequence, GET %s: the handler read %q, its own path holds %q (\"\" = not found)", i+1, st[0], got, st[1]), i
+		}
+	}
+	return "", -1
+}
+
 // c18Nested: request data belongs to its request. After warm ordinary requests, the handler of an outer
 // request reads its data, serves an inner request on the same instance, and reads its data again.
 func c18Nested(outer, inner string, warm int) (bad string) {
@@ -563,7 +599,7 @@ func c18Run(r *core.Run) {
 		maxLen = 3
 		r.SetBudget(12 * time.Minute)
 	}
-	r.Rule = "engine E: raw query text / bind parameter text / cookie text = absent, empty, EVERY byte string of length <=2 (thorough 3) over all 256 bytes, and a numeric corpus (signs, bases, overflow, 1e999, NaN, blanks) through every accessor with and without a default (queries also with the parameter name percent-escaped); cookie values of every byte string of length <=2 (thorough 3) through SetCookie -> Set-Cookie -> client -> Cookie header -> Cookie(); oracle: no panic, presence by url.ParseQuery / http.Request.Cookie, value by strconv (0 on malformed), absent or empty gives the default or zero, cookies read back byte for byte; request data read before and after a sub-request served on the same instance inside the handler (after 0..2 earlier requests) is the request's own; non-trivial = text that is present and non-numeric, or a cookie value containing a byte outside [A-Za-z0-9]"
+	r.Rule = "engine E: raw query text / bind parameter text / cookie text = absent, empty, EVERY byte string of length <=2 (thorough 3) over all 256 bytes, and a numeric corpus (signs, bases, overflow, 1e999, NaN, blanks) through every accessor with and without a default (queries also with the parameter name percent-escaped); cookie values of every byte string of length <=2 (thorough 3) through SetCookie -> Set-Cookie -> client -> Cookie header -> Cookie(); oracle: no panic, presence by url.ParseQuery / http.Request.Cookie, value by strconv (0 on malformed), absent or empty gives the default or zero, cookies read back byte for byte; request data read before and after a sub-request served on the same instance inside the handler (after 0..2 earlier requests) is the request's own; bind parameters read after requests that the same routes refused half way (capture limit overrun, last segment missing); non-trivial = text that is present and non-numeric, or a cookie value containing a byte outside [A-Za-z0-9]"
 	r.Assumptions = []string{"net/url, net/http cookie parsing and strconv are the reference parsers (trusted)", "QueryTrim/QueryUnescape apply their conversion to the default as well; the default used (DEF) is not altered by either", "QueryStrings returns the list as parsed when the key occurs at all (a list holding one empty string is a present list)"}
 	numeric := []string{"0", "1", "-1", "+1", "007", "12345678901234567890", "-9223372036854775808", "9223372036854775807", "9223372036854775808", "0x10", "1e3", "1e999", "-1e999", "NaN", "nan", "Inf", "-inf", " 1", "1 ", "1_000", "1.5", ".5", "5.", "true", "TRUE", "t", "T", "1", "false", "F", "yes", "１", "%31", "%2B1", "+", "-", "1%001",
 		// values that still hold a percent sign once the query string is decoded (well-formed and malformed escapes)
@@ -699,6 +735,18 @@ func c18Run(r *core.Run) {
 			} else {
 				l.Class("cookie:several-on-one-response")
 			}
+		}
+	}
+	{
+		l.Evals += 19
+		l.Transitions += 19
+		l.Traces++
+		l.NonTrivial++
+		l.States++
+		if bad, _ := c18AfterRefused(); bad != "" {
+			l.Violate("param-after-refused-requests", bad, c18Case{Mode: "after-refused"})
+		} else {
+			l.Class("param:after-requests-refused-half-way")
 		}
 	}
 	// request data read around a sub-request served on the same instance, after 0..2 earlier requests
@@ -837,6 +885,8 @@ func c18Replay(raw json.RawMessage) (bool, string) {
 		bad = c18Siblings("regex", c.Absent, s)
 	case "nested":
 		bad = c18Nested(s, c.Inner, c.Warm)
+	case "after-refused":
+		bad, _ = c18AfterRefused()
 	case "several-cookies":
 		bad = c18Several(strings.Split(s, ","), c.Raw)
 	}
